@@ -38,9 +38,19 @@ def all_bins():
     return sorted(f[:-3] for f in os.listdir(d) if f.endswith(".rs"))
 
 
+def also_for(bin_name):
+    """`//! ALSO: C07 C16` in a probe: properties it serves besides those in its file name"""
+    out = []
+    for line in open(os.path.join(PROBES, "src", "bin", bin_name + ".rs")):
+        m = re.match(r"//!\s*ALSO:\s*(.*\S)\s*$", line)
+        if m:
+            out += [t.lower() for t in re.findall(r"[Cc]\d\d", m.group(1))]
+    return out
+
+
 def bins_for(prop):
     tag = prop.lower()
-    return [b for b in all_bins() if tag in re.findall(r"c\d\d", b)]
+    return [b for b in all_bins() if tag in re.findall(r"c\d\d", b) or tag in also_for(b)]
 
 
 def expectations(bin_name):
